@@ -80,6 +80,28 @@ class RuleResult:
                 "findings": len(self.findings), "notes": self.notes}
 
 
+def _check_event_model(program):
+    """The analysis models mux events as records with the field lists of terms.EVENT_FIELDS (positional construction,
+    unpacking and indexing follow them).  The lists are re-read from the namedtuple definitions of the analysed tree on
+    every run: a tree that defines the events differently is not one this model describes (exit 2, never a verdict)."""
+    import ast as _ast
+    from .terms import EVENT_FIELDS, KIND_CLASSES
+    found = {}
+    for rel in ("rxsci/mux/__init__.py", "rxsci/state/state_topology.py"):
+        try:
+            m = program.module(rel)
+        except Exception:
+            raise AnalysisError("%s vanished: the mux event classes cannot be read" % rel)
+        for n in m.tree.body:
+            if isinstance(n, _ast.Assign) and len(n.targets) == 1 and isinstance(n.targets[0], _ast.Name) and n.targets[0].id in KIND_CLASSES \
+                    and isinstance(n.value, _ast.Call) and (getattr(n.value.func, "id", None) or getattr(n.value.func, "attr", None)) == "namedtuple" \
+                    and len(n.value.args) == 2 and isinstance(n.value.args[1], (_ast.List, _ast.Tuple)):
+                found[n.targets[0].id] = tuple(e.value for e in n.value.args[1].elts if isinstance(e, _ast.Constant))
+    for cls, kind in KIND_CLASSES.items():
+        if found.get(cls) != EVENT_FIELDS[kind]:
+            raise AnalysisError("the event class %s is defined with fields %s; the analysis models it as %s" % (cls, found.get(cls), EVENT_FIELDS[kind]))
+
+
 class Ctx:
     """Everything a rule needs; path sets are cached."""
 
@@ -88,6 +110,7 @@ class Ctx:
         self.tier = tier
         self.max_iter = 1 if tier == "quick" else 2
         self.ex = Executor(self.program, max_paths=4096 if tier == "quick" else 200000)
+        _check_event_model(self.program)
         self.all_sites: List[Site] = find_sites(self.program)
         self.unresolved = {}     # handler qualname -> first call of a function value that could not be resolved
         self.scope = None        # set of module paths: rules that quantify over "all sites" then only see these modules
